@@ -83,6 +83,10 @@ LE, LD = _mk_local()
 import http
 import string
 NTI = NewType("NTI", int)
+NTX = NewType("OtherName", int)   # bound to a variable name that differs from the NewType's own name
+def _mk_newtype():
+    return NewType("LocalNT", List[int])
+NTL = _mk_newtype()
 type TAI = int
 type TAL = List[datetime.date]
 def _mk_alias():
@@ -186,7 +190,8 @@ TYPES = [
     # names that exist only in the annotation (NewType, Annotated, PEP 695 alias) as scalar members of a union
     ("u_newtype", "Union[NTI, str]"), ("u_annot", "Union[Annotated[int, 'm'], str]"), ("u_alias", "Union[TAI, str]"),
     ("alias_dc", "AliasDC"), ("alias_list", "List[TAL]"), ("alias_local", "Tuple[LAI, TAI]"),
-    ("ovr", "Ovr"), ("ovr2", "Ovr2"),
+    ("ovr", "Ovr"), ("ovr2", "Ovr2"), ("newtype_misnamed", "Tuple[NTX, str]"), ("newtype_local", "Dict[str, NTL]"),
+    ("newtype_opt", "Optional[NTX]"),
     ("u_newtype_list", "List[Union[NTI, datetime.date]]"),
 ]
 
